@@ -12,9 +12,21 @@ from __future__ import annotations
 import dataclasses
 from typing import Any, Callable
 
+import asyncio
+import math
+
+from easynetwork.lowlevel._stream import StreamDataConsumer
+from easynetwork.lowlevel.api_async.endpoints.stream import AsyncStreamEndpoint
+from easynetwork.lowlevel.api_sync.endpoints.stream import StreamEndpoint
+from easynetwork.lowlevel.api_sync.transports.socket import SocketStreamTransport
+
+from vsim.backend import SimAsyncIOBackend, sim_sockets
 from vsim.chunk import CopyDriver, FillDriver, _classify, cuts_to_chunks, gen_cuts
+from vsim.harness import Peer, sync_engine
+from vsim.loop import run_async
 from vsim.runner import Harness
-from vsim.world import Violation, World
+from vsim.sock import Delivery, SimNet, patched_clock
+from vsim.world import Deadlock, HarnessError, Violation, World
 
 from . import matrix as M
 
@@ -25,25 +37,38 @@ RULE = (
     "StreamDataProducer.generate; chunking families {whole, byte-by-byte, 1 cut, 2 cuts, fixed size, k random cuts, structural cuts "
     "(packet boundary +-5, inside separators, headers, inside multi-byte characters, after escape bytes/quotes, inside struct fields, "
     "inside compressed blocks and at their end markers)}; both receive paths (copy; fill with size hints {1,2,3,5,8,16,64,1024,16384} and "
-    "full or per-read chosen fill sizes); 1 run in 48 uses a 'large' stream (one or two packets of 40-200 KiB, <= 64 chunks); "
-    "oracle = the list that was sent. A run is non-trivial when the stream was fragmented (fault kind 'frag') and >= 1 packet was returned."
+    "full or per-read chosen fill sizes); 1 run in 48 uses a 'large' stream (one or two packets of 40-200 KiB, <= 64 chunks); 1 run in 4 of the "
+    "entries with a limit configures it tightly (largest frame + safety margin of C02, file-based: largest packet + 0..3) so that the whole "
+    "stream, and single reads, exceed the limit while every packet is within it; tier T2 pushes the same chunks through a SimSocket link "
+    "into the real receive loops (blocking StreamEndpoint over SocketStreamTransport: recv_packet(timeout=0) after every chunk, or "
+    "recv_packet(timeout=None) against a scripted delivery until EOF; AsyncStreamEndpoint over the asyncio socket adapter on SimEventLoop), "
+    "max_recv_size from the hint set; oracle = the list that was sent. A run is non-trivial when the stream was fragmented (fault kind 'frag') "
+    "and >= 1 packet was returned."
 )
 COMPONENTS_REAL = [
     "easynetwork.serializers.* (line, json, struct, pickle, wrapper.base64, wrapper.compressor, composite, base_stream, tools)",
     "easynetwork.protocol (StreamProtocol, BufferedStreamProtocol)",
     "easynetwork.converter",
     "easynetwork.lowlevel._stream (StreamDataProducer, StreamDataConsumer, BufferedStreamDataConsumer)",
+    "T2: easynetwork.lowlevel.api_sync.endpoints.stream.StreamEndpoint + transports.socket.SocketStreamTransport + base_selector retry loop",
+    "T2: easynetwork.lowlevel.api_async.endpoints.stream.AsyncStreamEndpoint + asyncio backend socket adapter (StreamReaderBufferedProtocol) + CPython selector transport",
 ]
-COMPONENTS_STUB = ["the network: replaced by the list of cuts of the produced byte stream (tier T1; no stub code at all)"]
+COMPONENTS_STUB = [
+    "T1: the network is the list of cuts of the produced byte stream (no stub code at all)",
+    "T2: SimSocket / SimNet link with manual or scripted delivery, SimSelector, virtual clock, SimEventLoop",
+]
 ASSUMPTIONS = [
     "packets are drawn from each serializer's documented domain (props/matrix.py states it per entry); values outside it are not claimed",
     "StringLineSerializer(keep_end=True, encoding='utf-16-le') is excluded: the kept separator is one byte, so no line can decode",
-    "file-based entries keep the whole stream <= limit (several frames in one read > limit is C07's finding D8, not generated here)",
+    "a configured limit is always >= every single frame plus the 'safely within the limit' margin of C02 (separator length + 2; file-based: 0); "
+    "the stream as a whole and single reads may exceed it (this is what re-finds D8 when its fix is reverted)",
+    "leftover bytes that the copy consumer has already handed to the suspended parser are not observable (T1 and T2 alike)",
     "CBOR/MessagePack serializers are not installed; FileBasedPacketSerializer is exercised through a pickle-backed subclass",
 ]
 BUDGET = {"quick": 40, "thorough": 480}
 
 HINTS = [1024, 1, 2, 3, 5, 8, 16, 64, 16384]
+HINTS_MEDIUM = [1024, 16, 64, 16384]
 HINTS_LARGE = [16384, 1024, 65536]
 LARGE_ONE_IN = 48
 MAX_CHUNKS_LARGE = 64
@@ -55,6 +80,7 @@ class Path:
     name: str
     needs: str  # "stream" | "buffered"
     make: Callable[[Any, World, bool], Any]  # (protocol, world, large) -> driver
+    weight: int | None = None  # None: the family weight
 
 
 def _make_copy(protocol: Any, world: World, large: bool) -> Any:
@@ -96,7 +122,221 @@ def _make_copylazy(protocol: Any, world: World, large: bool) -> Any:
 PATHS = {
     "copy": Path("copy", "stream", _make_copy),
     "fill": Path("fill", "buffered", _make_fill),
-    "copylazy": Path("copylazy", "stream", _make_copylazy),
+    "copylazy": Path("copylazy", "stream", _make_copylazy, weight=3),
+}
+
+
+# ------------------------------------------------------------------------------------------------ tier T2: the real receive loops
+class _T2Driver:
+    """Deferred driver: `feed` only records the chunk; `finish` builds a SimNet link and a real endpoint, makes the chunks
+    visible on the socket one unit at a time, and collects what `recv_packet` returns (vsim.chunk outcome vocabulary).
+    `pending()` = bytes still unread in the socket + bytes held by the endpoint's consumer after the last packet."""
+
+    deferred = True
+    receiver_attr = ""
+
+    def __init__(self, protocol: Any, world: World, large: bool):
+        self.protocol = protocol
+        self.world = world
+        self.chunks: list[bytes] = []
+        self.out: list[tuple] = []
+        self.mrs = 0  # drawn in finish(), when the stream length is known
+        self.n_before_final: int | None = None
+        self._held = b""
+
+    def feed(self, chunk: bytes) -> None:
+        self.chunks.append(chunk)
+
+    def pending(self) -> int:
+        return len(self._held)
+
+    def held_bytes(self) -> bytes:
+        return self._held
+
+    def _draw_mrs(self) -> None:
+        total = sum(len(c) for c in self.chunks)
+        # tiny read sizes only for short streams: one recv()/recv_into() call costs microseconds of simulator work
+        hints = HINTS if total <= 2048 else HINTS_MEDIUM if total <= 8192 else HINTS_LARGE
+        self.mrs = self.world.pick("max_recv_size", hints)
+        self.world.notes.update(max_recv_size=self.mrs)
+
+    def _emit(self, o: tuple) -> None:
+        self.out.append(o)
+        self.world.log(o[0], o[1] if o[0] != "pkt" else "")
+
+    def _emit_exc(self, exc: BaseException) -> None:
+        if isinstance(exc, (Violation, HarnessError)):
+            raise exc
+        self._emit(_classify(exc))
+
+    def _measure(self, endpoint: Any, lib: Any) -> None:
+        try:
+            consumer = getattr(endpoint, self.receiver_attr).consumer
+        except AttributeError as exc:  # the private layout changed: the harness must be updated, not silently weakened
+            raise HarnessError(f"cannot reach the endpoint's consumer: {exc}") from None
+        if isinstance(consumer, StreamDataConsumer):
+            held = bytes(consumer.get_buffer())
+        else:
+            try:
+                consumer.get_write_buffer()  # get_value() is only meaningful once a consumer generator is active
+            except Exception:  # noqa: BLE001
+                pass
+            held = consumer.get_value() or b""
+        self._held = held + bytes(lib.rx_pipe.rx)
+
+
+class SyncEndpointDriver(_T2Driver):
+    """Blocking StreamEndpoint(SocketStreamTransport(SimSocket)) under the sync engine.
+
+    t2_mode 0 (poll):     after every chunk became visible, recv_packet(timeout=0) until TimeoutError; one more poll at the end.
+    t2_mode 1 (blocking): the whole stream is written at t=0 and delivered by the link as the scripted fragment sizes with
+                          per-fragment delays, then FIN; recv_packet(timeout=None) until ConnectionAbortedError (end-of-stream)."""
+
+    receiver_attr = "_StreamEndpoint__receiver"
+
+    def finish(self) -> None:
+        world = self.world
+        self._draw_mrs()
+        mode = world.choose("t2_mode", 2)
+        retry = world.pick("retry_interval", [math.inf, 1.0, 1 / 64])
+        world.notes.update(t2_mode=["poll", "blocking"][mode], retry_interval=str(retry))
+        net = SimNet(world)
+        if mode == 0:
+            delivery = Delivery(frag=5)
+        else:
+            delivery = Delivery(frag=4, script=[len(c) for c in self.chunks], delays=world.pick("delays", [(1,), (0,), (0, 1, 3)]))
+        lib, ps = net.socketpair(delivery_ba=delivery)
+        peer = Peer(world, ps)
+        cap = sum(len(c) for c in self.chunks) + 8
+        with sync_engine(world) as make_selector:
+            endpoint = StreamEndpoint(SocketStreamTransport(lib, retry, selector_factory=make_selector), self.protocol, self.mrs)
+            try:
+                ok = True
+                if mode == 0:
+                    for c in self.chunks:
+                        peer.write(c)
+                        ps.tx_pipe.deliver(len(c))
+                        ok = self._poll(endpoint, cap)
+                        if not ok:
+                            break
+                    if ok:
+                        self.n_before_final = len(self.out)
+                        ok = self._poll(endpoint, cap)  # nothing more may come out
+                else:
+                    peer.write(b"".join(self.chunks))
+                    peer.fin()
+                    while len(self.out) <= cap:
+                        try:
+                            pkt = endpoint.recv_packet(timeout=None)
+                        except ConnectionAbortedError:
+                            break
+                        except Deadlock as exc:  # blocked for ever although everything (and FIN) was delivered
+                            self._emit(("crash", "Deadlock", None, str(exc)[:200]))
+                            ok = False
+                            break
+                        except BaseException as exc:  # noqa: BLE001
+                            self._emit_exc(exc)
+                            ok = False
+                            break
+                        else:
+                            self._emit(("pkt", pkt))
+                    self.n_before_final = len(self.out)
+                if ok:
+                    self._measure(endpoint, lib)
+            finally:
+                endpoint.close()
+
+    def _poll(self, endpoint: Any, cap: int) -> bool:
+        while len(self.out) <= cap:
+            try:
+                pkt = endpoint.recv_packet(timeout=0)
+            except TimeoutError:
+                return True
+            except BaseException as exc:  # noqa: BLE001
+                self._emit_exc(exc)
+                return False
+            else:
+                self._emit(("pkt", pkt))
+        self._emit(("crash", "Spin", None, "recv_packet(timeout=0) keeps returning packets"))
+        return False
+
+
+class AsyncEndpointDriver(_T2Driver):
+    """AsyncStreamEndpoint over backend.wrap_stream_socket(SimSocket) on SimEventLoop.  A receiver task loops on
+    recv_packet(); the feeder makes one chunk visible, then lets `gap` virtual time pass (the loop only lets time pass when
+    the receiver is parked again, i.e. "until it would block"; gap 0 = a single loop turn, chunks may coalesce), then FIN."""
+
+    receiver_attr = "_AsyncStreamEndpoint__receiver"
+
+    def finish(self) -> None:
+        world = self.world
+        self._draw_mrs()
+        gap = world.pick("gap", [1, 0, 3]) / 64.0
+        world.notes.update(gap=gap)
+        net = SimNet(world)
+        backend = SimAsyncIOBackend(net)
+        world.FREE_ZERO_WAITS = 1 << 30  # type: ignore[misc]  # nothing here legitimately busy-loops: no virtual-CPU creep
+
+        async def main() -> None:
+            lib, ps = net.socketpair(delivery_ba=Delivery(frag=5))
+            peer = Peer(world, ps)
+            endpoint = AsyncStreamEndpoint(await backend.wrap_stream_socket(lib), self.protocol, self.mrs)
+            cap = sum(len(c) for c in self.chunks) + 8
+
+            async def receiver() -> bool:
+                while len(self.out) <= cap:
+                    try:
+                        pkt = await endpoint.recv_packet()
+                    except ConnectionAbortedError:
+                        return True
+                    except asyncio.CancelledError:
+                        raise
+                    except BaseException as exc:  # noqa: BLE001
+                        self._emit_exc(exc)
+                        return False
+                    else:
+                        self._emit(("pkt", pkt))
+                self._emit(("crash", "Spin", None, "recv_packet() keeps returning packets"))
+                return False
+
+            task = asyncio.get_running_loop().create_task(receiver(), name="c01-receiver")
+            try:
+                for c in self.chunks:
+                    if task.done():
+                        break
+                    peer.write(c)
+                    ps.tx_pipe.deliver(len(c))
+                    await asyncio.sleep(gap)
+                if not task.done():
+                    await asyncio.sleep(1 / 64)
+                    self.n_before_final = len(self.out)
+                    peer.fin()
+                    ps.tx_pipe.deliver_fin()
+                try:
+                    ok = await asyncio.wait_for(task, 64.0)
+                except TimeoutError:
+                    self._emit(("crash", "Deadlock", None, "the receiver task did not see end-of-stream within 64 virtual seconds after FIN"))
+                    ok = False
+                if ok:
+                    self._measure(endpoint, lib)
+            finally:
+                if not task.done():
+                    task.cancel()
+                await endpoint.aclose()
+
+        with sim_sockets(net), patched_clock(world):
+            run_async(world, main)
+
+
+def _t2(cls: Any) -> Callable[[Any, World, bool], Any]:
+    return lambda protocol, world, large: cls(protocol, world, large)
+
+
+T2_PATHS = {
+    "t2sync-copy": Path("t2sync-copy", "stream", _t2(SyncEndpointDriver), weight=1),
+    "t2sync-fill": Path("t2sync-fill", "buffered", _t2(SyncEndpointDriver), weight=1),
+    "t2aio-copy": Path("t2aio-copy", "stream", _t2(AsyncEndpointDriver), weight=1),
+    "t2aio-fill": Path("t2aio-fill", "buffered", _t2(AsyncEndpointDriver), weight=1),
 }
 
 
@@ -108,6 +348,16 @@ def bounded_cuts(world: World, n: int, structural: Any, max_chunks: int | None) 
         step = len(cuts) / (max_chunks - 1)
         cuts = [cuts[int(i * step)] for i in range(max_chunks - 1)]
     return cuts
+
+
+def tight_limit(entry: M.Entry, bounds: list[int]) -> int:
+    """Smallest limit under which every frame of the stream is 'safely within the limit' (DESIGN C02/C07: frame <= limit -
+    separator - 2 keeps both scanners strictly inside their accepting range; the file-based base class accepts a packet
+    of exactly `limit` bytes; the raw JSON parser compares the document length with the limit: + 2 for the terminator)."""
+    m = max(b - a for a, b in zip([0] + list(bounds[:-1]), bounds))
+    if entry.family == "filebased":
+        return max(m, 1)
+    return m + (len(entry.sep) if entry.sep else 0) + 2
 
 
 def _short(v: Any, n: int = 160) -> str:
@@ -138,12 +388,18 @@ def run_roundtrip(world: World, family: str, path: Path) -> None:
     stream, bounds = M.produce(entry.protocol(path.needs, limit), packets)  # sender side: its own fresh protocol object
     expected = [entry.expect(p, "stream") for p in packets]
     big = len(stream) > 8192
+    if entry.has_limit and not large and world.choose("tight_limit", 4) == 3:
+        # every frame is safely within the limit, the stream as a whole (and most reads) is not
+        limit = tight_limit(entry, bounds) + world.choose("limit_slack", 4)
+        world.probe("tight_limit")
+        if len(stream) > limit:
+            world.probe("stream_exceeds_limit")
 
     structural = M.LazyCuts(lambda: M.structural_cuts(stream, bounds, entry.sep, entry.hints))
     cuts = bounded_cuts(world, len(stream), structural, MAX_CHUNKS_LARGE if big else None)
     chunks = cuts_to_chunks(stream, cuts)
 
-    world.notes.update(entry=entry.name, path=path.name, npackets=npk, stream_len=len(stream), nchunks=len(chunks), large=bool(big), chunks=[len(c) for c in chunks][:48])
+    world.notes.update(entry=entry.name, path=path.name, limit=limit, npackets=npk, stream_len=len(stream), nchunks=len(chunks), large=bool(big), chunks=[len(c) for c in chunks][:48])
     drv = path.make(entry.protocol(path.needs, limit), world, big)
     if big:
         world.probe("large_stream")
@@ -152,7 +408,7 @@ def run_roundtrip(world: World, family: str, path: Path) -> None:
 
     def ctx() -> str:
         return (
-            f"entry={entry.name} path={path.name} notes={ {k: world.notes[k] for k in ('size_hint', 'fill_mode') if k in world.notes} } "
+            f"entry={entry.name} path={path.name} limit={limit} notes={ {k: world.notes[k] for k in ('size_hint', 'fill_mode', 'max_recv_size', 't2_mode', 'gap', 'retry_interval') if k in world.notes} } "
             f"packets={_short(packets, 400)} stream({len(stream)})={_short(stream, 300)} bounds={bounds} chunks={[len(c) for c in chunks][:64]}"
         )
 
@@ -168,6 +424,7 @@ def run_roundtrip(world: World, family: str, path: Path) -> None:
         else:
             drv.drain(None)  # next(None) must raise StopIteration right away: nothing may be appended to `out`
 
+    n_before_finish = getattr(drv, "n_before_final", None) or n_before_finish  # deferred (T2) drivers run everything in finish()
     out = drv.out
     world.log("c01", path.name, entry.name, len(chunks), tuple(o[0] for o in out))
     world.progress(sum(1 for o in out if o[0] == "pkt"))
@@ -199,7 +456,8 @@ def run_roundtrip(world: World, family: str, path: Path) -> None:
 
 
 # ------------------------------------------------------------------------------------------------ harness table
-_FAMILY_WEIGHT = {"line": 3, "json": 3, "base64": 2, "zlib": 2, "bz2": 1, "struct": 1, "namedtuple": 1, "autosep": 2, "fixed": 1, "filebased": 2, "stapled": 2, "converter": 1}
+# T1 runs cost ~1 ms, T2 runs several ms: T1 harnesses get 4x their family weight, every T2 harness weight 1 (~20 % of the runs)
+_FAMILY_WEIGHT = {"line": 12, "json": 12, "base64": 8, "zlib": 8, "bz2": 4, "struct": 4, "namedtuple": 4, "autosep": 8, "fixed": 4, "filebased": 8, "stapled": 8, "converter": 4}
 
 
 def make_harnesses(paths: dict[str, Path], suffix: str = "", tiers: tuple = ("quick", "thorough"), wall_limit: float = 30.0) -> list[Harness]:
@@ -212,7 +470,7 @@ def make_harnesses(paths: dict[str, Path], suffix: str = "", tiers: tuple = ("qu
                 Harness(
                     f"{family}-{path.name}{suffix}",
                     (lambda w, f=family, p=path: run_roundtrip(w, f, p)),
-                    weight=1 if path.name == "copylazy" else _FAMILY_WEIGHT.get(family, 1),
+                    weight=path.weight if path.weight is not None else _FAMILY_WEIGHT.get(family, 1),
                     tiers=tiers,
                     wall_limit=wall_limit,
                 )
@@ -220,4 +478,4 @@ def make_harnesses(paths: dict[str, Path], suffix: str = "", tiers: tuple = ("qu
     return out
 
 
-HARNESSES = make_harnesses(PATHS)
+HARNESSES = make_harnesses(PATHS) + make_harnesses(T2_PATHS)
